@@ -1,6 +1,7 @@
 #!/bin/bash
 # Confirms a seeded change delivered by an independent sub-agent, then runs a monitor against it.
-#   tools/seed_verify.sh <delivery dir (patch.diff, demo.diff, README.md)> <Cnn> <crate> <test name> [seeded id]
+#   tools/seed_verify.sh <delivery dir (patch.diff, demo.diff, README.md)> <Cnn> <crate> <test name>
+#   env DEMO_CMD='cargo test ...' replaces the default demo command (cargo test -p <crate> --test <test name>), run inside the scratch worktree
 # 1. persistent scratch worktree /tmp/seedv/wt (own target dir, reused): reset to /repo HEAD
 # 2. demo.diff only            -> demo must PASS
 # 3. demo.diff + patch.diff    -> demo must FAIL, existing test suite must PASS
@@ -24,10 +25,10 @@ if [ ! -d "$wt" ]; then mkdir -p /tmp/seedv; git -C /repo worktree add --detach 
 git -C "$wt" checkout -q --detach "$(git -C /repo rev-parse HEAD)" && git -C "$wt" reset -q --hard && git -C "$wt" clean -qfd -e target
 cd "$wt" || exit 3
 git apply "$dir/demo.diff" || { echo "demo.diff does not apply" | tee -a "$log"; exit 3; }
-cargo test --offline -j 8 -p "$crate" --test "$tname" >"$dir/demo_clean.out" 2>&1; rc_clean=$?
+if [ -n "${DEMO_CMD:-}" ]; then bash -c "$DEMO_CMD" >"$dir/demo_clean.out" 2>&1; else cargo test --offline -j 8 -p "$crate" --test "$tname" >"$dir/demo_clean.out" 2>&1; fi; rc_clean=$?
 echo "demo on unchanged code: exit $rc_clean ($(grep -E '^test result' "$dir/demo_clean.out" | tail -1))" | tee -a "$log"
 git apply "$dir/patch.diff" || { echo "patch.diff does not apply to HEAD" | tee -a "$log"; exit 3; }
-cargo test --offline -j 8 -p "$crate" --test "$tname" >"$dir/demo_patched.out" 2>&1; rc_pat=$?
+if [ -n "${DEMO_CMD:-}" ]; then bash -c "$DEMO_CMD" >"$dir/demo_patched.out" 2>&1; else cargo test --offline -j 8 -p "$crate" --test "$tname" >"$dir/demo_patched.out" 2>&1; fi; rc_pat=$?
 echo "demo with the change:   exit $rc_pat ($(grep -E '^test result' "$dir/demo_patched.out" | tail -1))" | tee -a "$log"
 # existing suite with the change but without the demo
 git -C "$wt" reset -q --hard && git -C "$wt" clean -qfd -e target && git apply "$dir/patch.diff"
